@@ -926,6 +926,13 @@ func GenProgScenarioSites(t *rapid.T, cfg ProgCfg) (*Scenario, map[common.Addres
 			if e == 2929 || (e == 3529 && idx < 8) {
 				continue
 			}
+			// 3860 installs a gas function on the CREATE2 slot; before Constantinople
+			// that slot is the undefined opcode (no operands) and the gas function
+			// indexes an empty stack - upstream panics in the same way, so this is not
+			// a configuration a host can run
+			if e == 3860 && idx < 5 {
+				continue
+			}
 			if eipActivation[e] > idx {
 				cand = append(cand, e)
 			}
